@@ -27,7 +27,11 @@ func init() {
 		Rule: "all 146 resource type names x ids/versions over the FHIR id alphabet (length 1..64, plus empty, 65 and illegal characters) x service base URLs {none, http/https, port, nested path, trailing slash} x forms {relative, versioned, absolute, fragment, '#', URN uuid/oid, canonical with |version and #fragment, ''} and byte-mutated neighbours: format->parse returns the components; parse->format->parse is a fixpoint (identical to the input without redundant slashes); rejected strings give errors, never a panic; strong (typed) and weak (uri) references naming one resource give equal LiteralInfo/Identity, reference.Is = true and the same FHIRPath `reference` string; weak references carrying Reference.type (consistent, inconsistent, absent; on REST URLs, URNs and fragments) parsed in sequence on one uri with the bare string re-parsed in between (what is parsed from a reference depends on that reference alone); Is is reflexive/symmetric/transitive on generated triples; canonical url|version#fragment splits and reassembles unchanged. fragment references read through the FHIRPath `reference` element; distinct_nontrivial = distinct (form, type, base-url class, id class, version present) cases",
 		Assumptions: []string{"an absolute URL whose path does not match Type/id[/_history/v] may be accepted as a non-REST URI or rejected; it must never yield an identity"},
 		Run:    runC19,
-		Checks: map[string]func(*core.Env, []json.RawMessage){"uri": replayC19URI, "ref": replayC19Ref, "canon": replayC19Canon, "weak": replayC19Weak, "ctor": func(env *core.Env, a []json.RawMessage) {
+		Checks: map[string]func(*core.Env, []json.RawMessage){"uri": replayC19URI, "ref": replayC19Ref, "canon": replayC19Canon, "weak": replayC19Weak, "entry": func(env *core.Env, a []json.RawMessage) {
+			var u string
+			json.Unmarshal(a[0], &u)
+			c19RefEntryPoints(env, u)
+		}, "ctor": func(env *core.Env, a []json.RawMessage) {
 			var tn, id, ver, base string
 			json.Unmarshal(a[0], &tn)
 			json.Unmarshal(a[1], &id)
@@ -706,6 +710,92 @@ func c19Constructors(env *core.Env, tn, id, ver, base string) {
 	}
 }
 
+// c19RefEntryPoints: one string as Reference.reference (uri member), with no / a consistent / another
+// Reference.type: LiteralInfoOf, IdentityOf and Is return a value or an error, never crash, and agree with
+// LiteralInfoFromURI on whether the string is a literal at all (a type can only make an accepted string unacceptable).
+// An accepted literal given another service base URL still formats to something that parses back to the same class.
+func c19RefEntryPoints(env *core.Env, u string) {
+	defer env.In("entry", u)()
+	env.Case()
+	env.Cover("reference-entry-points")
+	var base *reference.LiteralInfo
+	var baseErr error
+	out := env.Guard("LiteralInfoFromURI "+u, func() { base, baseErr = reference.LiteralInfoFromURI(u) })
+	if out.Panicked || out.Dead {
+		env.Violatef("C19/panic@"+out.Site+"/entry", "LiteralInfoFromURI(%q) panicked: %s", u, out.PanicMsg)
+		return
+	}
+	for _, ty := range []string{"", "Patient", "Observation", "Foo"} {
+		ref := &dtpb.Reference{Reference: &dtpb.Reference_Uri{Uri: &dtpb.String{Value: u}}}
+		if ty != "" {
+			ref.Type = &dtpb.Uri{Value: ty}
+		}
+		var lit *reference.LiteralInfo
+		var e1, e2 error
+		var id *resource.Identity
+		var is1, is2 bool
+		out := env.Guard(fmt.Sprintf("LiteralInfoOf/IdentityOf/Is uri=%q type=%q", u, ty), func() {
+			lit, e1 = reference.LiteralInfoOf(ref)
+			id, e2 = reference.IdentityOf(ref)
+			is1 = reference.Is(ref, ref)
+			is2 = reference.Is(ref, &dtpb.Reference{Reference: &dtpb.Reference_Uri{Uri: &dtpb.String{Value: "Patient/zz9"}}})
+		})
+		env.Eval(4)
+		if out.Panicked || out.Dead {
+			env.Violatef("C19/panic@"+out.Site+"/entry", "Reference{reference: %q, type: %q}: %s panicked: %s", u, ty, out.Site, out.PanicMsg)
+			continue
+		}
+		if baseErr != nil && e1 == nil {
+			env.Violatef("C19/entry/type-makes-invalid-literal-valid", "LiteralInfoFromURI(%q) fails (%v) but LiteralInfoOf(Reference{reference: %q, type: %q}) succeeds: %s", u, baseErr, u, ty, lit.URIString())
+		}
+		if ty == "" && (baseErr == nil) != (e1 == nil) {
+			env.Violatef("C19/entry/reference-and-string-disagree", "LiteralInfoFromURI(%q): %v; LiteralInfoOf(Reference{reference: %q}): %v", u, baseErr, u, e1)
+		}
+		if e1 == nil && lit.URIString() != base.URIString() {
+			env.Violatef("C19/entry/reference-and-string-disagree", "Reference{reference: %q, type: %q} formats as %q, the bare string as %q", u, ty, lit.URIString(), base.URIString())
+		}
+		if ty == "" && e1 != nil && e2 == nil {
+			env.Violatef("C19/entry/identity-of-an-invalid-literal", "Reference{reference: %q, type: %q}: LiteralInfoOf fails (%v) but IdentityOf gives %s", u, ty, e1, id)
+		}
+		if !is1 || (is2 && u != "Patient/zz9") {
+			env.Violatef("C19/entry/is", "Reference{reference: %q, type: %q}: Is(r, r) = %v, Is(r, Patient/zz9) = %v", u, ty, is1, is2)
+		}
+	}
+	if baseErr != nil || base == nil {
+		return
+	}
+	_, isID := base.Identity()
+	for _, nb := range []string{"https://other.example/fhir", "http://b.example", ""} {
+		var l2 *reference.LiteralInfo
+		var e error
+		var s2 string
+		out := env.Guard("WithServiceBaseURL "+u, func() {
+			l2, e = base.WithServiceBaseURL(nb)
+			if e == nil {
+				s2 = l2.URIString()
+			}
+		})
+		env.Eval(1)
+		if out.Panicked || out.Dead {
+			env.Violatef("C19/panic@"+out.Site+"/WithServiceBaseURL", "WithServiceBaseURL(%q) on %q panicked: %s", nb, u, out.PanicMsg)
+			continue
+		}
+		if e != nil {
+			continue
+		}
+		env.Cover("rebase-any-literal")
+		if !isID && s2 != base.URIString() {
+			// a fragment or a non-REST URI names the same thing whatever the server is
+			env.Violatef("C19/rebase/non-rest-literal-changed", "parse(%q).WithServiceBaseURL(%q) formats as %q, expected the literal itself", u, nb, s2)
+			continue
+		}
+		back, err := reference.LiteralInfoFromURI(s2)
+		if err != nil || back.URIString() != s2 {
+			env.Violatef("C19/rebase/not-parsable", "parse(%q).WithServiceBaseURL(%q) formats as %q, which parses to %v, %v", u, nb, s2, back, err)
+		}
+	}
+}
+
 func c19ID(r *core.Rng, n int) string {
 	const al = "ABCDEFGHIJKLMNOPQRSTUVWXYZabcdefghijklmnopqrstuvwxyz0123456789-."
 	b := make([]byte, n)
@@ -833,6 +923,14 @@ func runC19(env *core.Env) {
 			}
 			env.Cover("form:rejected")
 			c19URI(env, u, c19Expect{Class: "reject"}, false)
+		}
+	}
+	// every string, valid or not, as the uri member of a Reference with and without Reference.type, through every
+	// entry point that takes a Reference; and every accepted literal re-based
+	for _, u := range []string{"", "Patient", "Patient/", "/Patient/1", "Foo/1", "patient/1", "Patient/1/_history", "Patient/1/2/3", "http://", "://x", "Patient/1|2", " Patient/1", "#a b", "#é", "urn:uuid:53fefa32-fcbb-4ff8-8a92-55ee120877b7", "urn:oid:1.2.3",
+		"http://other.example/not/a/resource", "#a", "#", "Patient/a1", "Observation/a1/_history/2", "https://h.example/fhir/Patient/a1", "mailto:x@example.org", "Patient/" + strings.Repeat("a", 65), "\x00", "%", "Patient/%41"} {
+		if mine() {
+			c19RefEntryPoints(env, u)
 		}
 	}
 	// Is: reflexive / symmetric / transitive over a pool
